@@ -13,8 +13,8 @@ C10 line protocol.  One line = one whole history.
   Q <size_factor> <op> ...      queue level, run on SortedPriorityQueue and HeapPriorityQueue
       a<task>:<prio> add(task, priority)   -> `-`      (prio: integer, = 2 * float(priority or 0))
       r<task>        remove(task)          -> `-` | `KeyError`
-      p / P          pop() / pop(default)  -> `t<task>` | `IndexError` | `d`
-      k / K          peek() / peek(default)
+      p / P<i>       pop() / pop(default #i)  -> `t<task>` | `IndexError` | `d<i>`
+      k / K<i>       peek() / peek(default #i)   (i names which object was given as default)
       n              len(q)                -> `n<number>`
 Output: B: the results joined by `,`;  Q: `S=<results> H=<results>`.
 -/
@@ -52,17 +52,17 @@ def parseOp (tok : String) : Option (Op Nat) :=
       | _, _ => none
     | _ => none
   | 'r' => rest.toNat?.map .remove
-  | 'p' => if rest = "" then some (.pop false) else none
-  | 'P' => if rest = "" then some (.pop true) else none
-  | 'k' => if rest = "" then some (.peek false) else none
-  | 'K' => if rest = "" then some (.peek true) else none
+  | 'p' => if rest = "" then some (.pop none) else none
+  | 'P' => rest.toNat?.map fun i => .pop (some i)
+  | 'k' => if rest = "" then some (.peek none) else none
+  | 'K' => rest.toNat?.map fun i => .peek (some i)
   | 'n' => if rest = "" then some .len else none
   | _ => none
 
 def showOut : Out Nat → String
   | .none => "-"
   | .task t => s!"t{t}"
-  | .dflt => "d"
+  | .dflt i => s!"d{i}"
   | .len n => s!"n{n}"
   | .keyError => "KeyError"
   | .indexError => "IndexError"
